@@ -164,6 +164,77 @@ Proof.
   match goal with |- context [failure_met ?a ?b] => destruct (failure_met a b) end; [left|right]; reflexivity.
 Qed.
 
+(* ---- requests whose client goes away: the model's looks = the specification function of the trace, for every wfc trace *)
+Definition invc (st : rstate) (ph : list (N * N)) (ended : list N) : Prop :=
+  (forall r, (1 <= phase ph r)%N -> lookup r (rs_handles st) = Some (HCopy r)) /\
+  (forall r, phase ph r = 2%N -> lookup r (rs_qctx st) = Some (Some r)) /\
+  rs_ended st = ended.
+
+Lemma run_is_spec : forall tr st ph ended,
+  invc st ph ended -> wfc_go ph ended tr = true -> run false st tr = spec_go ended tr.
+Proof.
+  induction tr as [|e t IH]; intros st ph ended (I1 & I2 & I3) Hwf; [reflexivity|].
+  destruct e as [r|r|r|r]; cbn [wfc_go] in Hwf; apply andb_prop in Hwf; destruct Hwf as [Hp Hwf];
+    cbn [run step spec_go app].
+  - apply N.eqb_eq in Hp. apply (IH _ ((r, 1%N) :: ph) ended); [|exact Hwf]. unfold set_oid_and_db.
+    split; [|split]; [intros r' H|intros r' H|exact I3]; cbn [rs_handles rs_qctx rs_ended] in *; rewrite phase_cons in *.
+    + cbn [lookup]. destruct (N.eqb r r') eqn:E; [apply N.eqb_eq in E; subst; reflexivity|apply I1; exact H].
+    + destruct (N.eqb r r') eqn:E; [discriminate|apply I2; exact H].
+  - apply N.eqb_eq in Hp. apply (IH _ ((r, 2%N) :: ph) ended); [|exact Hwf]. unfold querier.
+    assert (Hh : lookup r (rs_handles st) = Some (HCopy r)) by (apply I1; rewrite Hp; lia).
+    rewrite Hh.
+    split; [|split]; [intros r' H|intros r' H|exact I3]; cbn [rs_handles rs_qctx rs_ended] in *; rewrite phase_cons in *.
+    + destruct (N.eqb r r') eqn:E; [apply N.eqb_eq in E; subst; exact Hh|apply I1; exact H].
+    + cbn [lookup]. destruct (N.eqb r r') eqn:E; [apply N.eqb_eq in E; subst; reflexivity|apply I2; exact H].
+  - apply N.eqb_eq in Hp. f_equal.
+    + unfold look. rewrite (I2 r Hp). unfold ctx_done. rewrite I3. reflexivity.
+    + apply (IH st ph ended); [|exact Hwf]. split; [|split]; assumption.
+  - apply andb_prop in Hp. destruct Hp as [Hp _].
+    apply (IH _ ph (r :: ended)); [|exact Hwf].
+    split; [|split]; [exact I1|exact I2|]. cbn [rs_ended]. rewrite I3. reflexivity.
+Qed.
+
+Lemma run_is_spec_looks tr : wfc tr = true -> run false rs_init tr = spec_looks tr.
+Proof.
+  intro H. apply (run_is_spec tr rs_init [] []); [|exact H].
+  split; [|split]; [intros r Hr|intros r Hr|reflexivity]; unfold phase in Hr; cbn in Hr; [lia|discriminate].
+Qed.
+
+(* what the specification function says: own context; done only when the request itself ended before *)
+Lemma spec_go_own : forall tr ended o, In o (spec_go ended tr) ->
+  snd (fst o) = Some (fst (fst o)) /\
+  (snd o = true -> existsb (N.eqb (fst (fst o))) ended = true \/ In (EEnd (fst (fst o))) tr).
+Proof.
+  induction tr as [|e t IH]; intros ended o Hin; [destruct Hin|].
+  destruct e as [r|r|r|r]; cbn [spec_go] in Hin.
+  - destruct (IH _ _ Hin) as [A B]. split; [exact A|]. intro D. destruct (B D) as [X|X]; [left; exact X|right; right; exact X].
+  - destruct (IH _ _ Hin) as [A B]. split; [exact A|]. intro D. destruct (B D) as [X|X]; [left; exact X|right; right; exact X].
+  - destruct Hin as [Ho|Hin].
+    + subst o. cbn. split; [reflexivity|]. intro D. left. exact D.
+    + destruct (IH _ _ Hin) as [A B]. split; [exact A|]. intro D. destruct (B D) as [X|X]; [left; exact X|right; right; exact X].
+  - destruct (IH _ _ Hin) as [A B]. split; [exact A|]. intro D. destruct (B D) as [X|X].
+    + cbn [existsb] in X. apply orb_prop in X. destruct X as [X|X].
+      * apply N.eqb_eq in X. right. left. f_equal. symmetry. exact X.
+      * left. exact X.
+    + right. right. exact X.
+Qed.
+
+Lemma cut_only_by_own_end tr : wfc tr = true -> forall o, In o (run false rs_init tr) ->
+  snd (fst o) = Some (fst (fst o)) /\ (snd o = true -> In (EEnd (fst (fst o))) tr).
+Proof.
+  intros H o Hin. rewrite (run_is_spec_looks tr H) in Hin. destruct (spec_go_own tr [] o Hin) as [A B].
+  split; [exact A|]. intro D. destruct (B D) as [X|X]; [discriminate|exact X].
+Qed.
+
+(* the client of request 0 goes away while request 1 reads: request 1 is not touched (code), is cut (shared variant) *)
+Definition w_trace_client_gone : list ev :=
+  [ESet 1; ESet 0; EQuerier 0; ELook 0; EQuerier 1; ELook 1; EEnd 0; ELook 0; ELook 1; EEnd 1]%N.
+Lemma client_gone_witness :
+  wfc w_trace_client_gone = true
+  /\ run false rs_init w_trace_client_gone = [(0, Some 0, false); (1, Some 1, false); (0, Some 0, true); (1, Some 1, false)]%N
+  /\ run true rs_init w_trace_client_gone = [(0, Some 0, false); (1, Some 0, false); (0, Some 0, true); (1, Some 0, true)]%N.
+Proof. split; [reflexivity|]. split; reflexivity. Qed.
+
 (* seed C17-f: request 1 (B) is set up, request 0 (A) is set up before B's engine asked for its querier, A ends
    while B still reads *)
 Definition w_trace : list ev :=
